@@ -1,5 +1,5 @@
 (* C07  Hydro task graph: every task once, in order, conflict-free, terminates.
-   Only statements, each closed by [exact] of a lemma of Cxx/C07_Proofs.v / Cxx/C07_GraphGen.v / Cxx/C07_Graph.v.
+   Only statements, each closed by [exact] of a lemma of Cxx/C07_Proofs.v / Cxx/C07_Phases.v / Cxx/C07_GraphGen.v / Cxx/C07_Graph.v.
 
    Model (Cxx/C07_Defs.v): [step g s (L i pick)] is one access of worker thread i to shared data in the worker loop
    of the hydro step (control points LoopHead / Fetch / Run / Unlock / Release k / Enq k / Inc k, in the order of the
@@ -7,7 +7,7 @@
    queued lockable task a fetch returns or that it returns none) of n threads; [log] is the ghost sequence of
    start/stop events (newest first).  [wf g] is the well-formedness of a task graph, decided by [wf_check]. *)
 From Coq Require Import Arith List Bool PeanoNat.
-From CMI Require Import Cxx.C07_Defs Cxx.C07_Base Cxx.C07_Proofs Cxx.C07_GraphGen Cxx.C07_Graph.
+From CMI Require Import Cxx.C07_Defs Cxx.C07_Base Cxx.C07_Proofs Cxx.C07_Phases Cxx.C07_GraphGen Cxx.C07_Graph.
 Import ListNotations.
 
 (* No task is started or stopped twice; when every thread has left the loop every task has been started and stopped. *)
@@ -101,6 +101,33 @@ Theorem C07_make_graph_locks_exact : forall Y, 1 <= lnx Y -> 1 <= lny Y -> 1 <= 
      locks (tk (make_graph true Y) t) = [sub (tk (make_graph true Y) t)]).
 Proof. exact make_graph_locks_exact. Qed.
 Print Assumptions C07_make_graph_locks_exact.
+
+(* SEMANTIC ordering of the hydro step.  Phases ([rk g t] = rank_of (kind ..)): 0 gradient sweeps (GI GN GB) -> 1 slope
+   limiter (SL) -> 2 primitive prediction (PP) -> 3 flux sweeps (FI FN FB) -> 4 conserved update (UC) -> 5 primitive
+   update (UP).  [phases_ordered g]: for every subgrid s and tasks t1, t2 of the table that both touch s ([touches]:
+   Task::_subgrid and, for pair tasks, Task::_buffer) with t2 in the phase directly after t1, t2 is a DIRECT child of t1
+   (po_next), and every phase has a task that touches s (po_chain).  It holds for the graph the code builds, for EVERY
+   layout and periodicity (from the closed form of C07_GraphGen.v: the 23-edge template of set_dependencies is exactly
+   the set of slot pairs of consecutive phases, and a pair task is seen from its neighbour through the negative-side
+   slot).  A missing or misdirected edge of set_dependencies that keeps the parent counts (so [wf] still holds and
+   nothing hangs) falsifies it. *)
+Theorem C07_phases_ordered : forall Y, 1 <= lnx Y -> 1 <= lny Y -> 1 <= lnz Y -> phases_ordered (make_graph true Y).
+Proof. exact make_graph_phases. Qed.
+Print Assumptions C07_phases_ordered.
+
+(* ... hence, in EVERY run (any number of threads, any schedule) a task that touches subgrid x is never started before
+   every task of an EARLIER phase that touches x has stopped (log is newest first: the stop lies before the start). *)
+Theorem C07_phases_ordered_in_every_run : forall g n sched, wf g -> phases_ordered g -> 1 <= n ->
+  forall l1 l2 t1 t2 x,
+    log (exec g (init g n) sched) = l1 ++ EStart t2 :: l2 -> t1 < length g -> t2 < length g ->
+    In x (touches (tk g t1)) -> In x (touches (tk g t2)) -> rk g t1 < rk g t2 -> In (EStop t1) l2.
+Proof. exact phases_in_every_run. Qed.
+Print Assumptions C07_phases_ordered_in_every_run.
+
+(* the executable check evaluated on every dumped REAL task table ([phases_ordered_find] returns the first offender) *)
+Theorem C07_phases_ordered_check_sound : forall g, phases_ordered_check g = true -> phases_ordered g.
+Proof. exact phases_ordered_check_sound. Qed.
+Print Assumptions C07_phases_ordered_check_sound.
 
 (* Closed form of the sequential numbering (tasks.get_free_element() hands out consecutive indices): [base Y i] = number of
    tasks of the subgrids before i, [num Y (j, s)] = base Y j + number of slots < s of subgrid j that hold a task.  Every
